@@ -66,10 +66,11 @@ def OOut.isApp : OOut → Bool
   | .cb c => Cb.isApp c
   | _ => false
 
-/-- what the request handlers (`handleNonRead`) never touch -/
+/-- what the request handlers (`handleNonRead`) never touch (`unsolReported` appended last, so the
+    positions of the other components are as before) -/
 def keepNR (s : OState) :=
   (s.cfg, s.script.appIin, s.now, s.mode, s.lastReq, s.unsol, s.unsolSeq, s.deferred, s.lastBroadcast,
-   s.unsolBuf, s.db, s.frameId, s.nextLinkStatus, s.pending, s.notified)
+   s.unsolBuf, s.db, s.frameId, s.nextLinkStatus, s.pending, s.notified, s.unsolReported)
 
 /-- the control machinery additionally leaves these alone -/
 def keepCtl (s : OState) := (keepNR s, s.restart, s.en1, s.en2, s.en3, s.lastRecorded, s.select, s.solBuf)
@@ -626,7 +627,8 @@ theorem startUnsolSeries_eq (a : Acc) (r : Resp) (isNull : Bool) (a' : Acc)
         iin2 := r.iin2 ||| iin2Of a.1.db.isOverflown (a.1.script.appIin.testBit 3) } ∧
       a' = ({ afterIin a.1 with
               unsolBuf := writeAt (afterIin a.1).unsolBuf 0 (respHeader r'),
-              mode := .unsolWait r' isNull (if isNull then some 0 else a.1.cfg.retries) (a.1.now + a.1.cfg.ctimeout) },
+              mode := .unsolWait r' isNull (if isNull then some 0 else a.1.cfg.retries) (a.1.now + a.1.cfg.ctimeout),
+              unsolReported := r'.iin1.testBit 0 },
             a.2 ++ [.tx a.1.cfg.master ((writeAt (afterIin a.1).unsolBuf 0 (respHeader r')).take (max 4 r'.size)),
                     .cb (.unsolWait r.ctrl.seq)]) := by
   unfold startUnsolSeries at h
@@ -895,7 +897,7 @@ theorem BCCase.frame {a0 : Acc} {f : Frag} {ctrl : AppCtrl} {func : Nat} {objs :
 /-- `keepNR` without `lastBroadcast` -/
 def keepBC (s : OState) :=
   (s.cfg, s.script.appIin, s.now, s.mode, s.lastReq, s.unsol, s.unsolSeq, s.deferred,
-   s.unsolBuf, s.db, s.frameId, s.nextLinkStatus, s.pending, s.notified)
+   s.unsolBuf, s.db, s.frameId, s.nextLinkStatus, s.pending, s.notified, s.unsolReported)
 
 theorem keepBC_of_keepNR (s s' : OState) (h : keepNR s' = keepNR s) : keepBC s' = keepBC s := by
   simp only [keepNR, keepBC, Prod.mk.injEq] at h ⊢
@@ -955,7 +957,7 @@ theorem classify_facts (s : OState) (f : Frag) (ctrl : AppCtrl) (func : Nat) (ob
 theorem afterIin_eq (s : OState) :
     afterIin s = { s with lastBroadcast := if s.lastBroadcast = some 1 then some 1 else none } := by
   cases s
-  rename_i lb _ _ _ _ _ _ _
+  rename_i lb _ _ _ _ _ _ _ _
   simp only [afterIin]
   cases lb with
   | none => simp
@@ -964,10 +966,12 @@ theorem afterIin_eq (s : OState) :
     · subst h1; simp
     · simp [h1]
 
-/-- everything but `lastBroadcast` and the solicited buffer -/
+/-- everything but `lastBroadcast` and the solicited buffer (`unsolReported` appended last, so the
+    positions of the other components are as before) -/
 def keepWS (s : OState) :=
   (s.cfg, s.script, s.now, s.mode, s.restart, s.en1, s.en2, s.en3, s.lastReq, s.select, s.unsol, s.unsolSeq,
-   s.deferred, s.lastRecorded, s.unsolBuf, s.db, s.frameId, s.nextLinkStatus, s.pending, s.notified)
+   s.deferred, s.lastRecorded, s.unsolBuf, s.db, s.frameId, s.nextLinkStatus, s.pending, s.notified,
+   s.unsolReported)
 
 theorem writeSolicited_keep (a : Acc) (dst : Nat) (r : Resp) (a' : Acc) (r' : Resp)
     (h : writeSolicited a dst r = some (a', r')) :
